@@ -34,6 +34,7 @@ def impl(line):
 
 TALLY = {}
 GRID = {}
+BOUNDARY_STRIDE = 8
 
 
 def _outcome(ans):
@@ -46,12 +47,12 @@ def _outcome(ans):
 
 def nontrivial(line, ans):
     t = line.split()
-    fam = t[0] + (":" + t[1] if t[0] in ("ctor", "call") else "")
+    fam = t[0] + (":" + t[1] if t[0] in ("ctor", "call", "bcall", "hier", "hierx", "hiers") else "")
     d = TALLY.setdefault(fam, {"refused": 0, "well_formed": 0, "flagged": 0})
     d[_outcome(ans)] += 1
     if t[0] == "ctor":
         return line if t[4] != "none" else None
-    if t[0] == "call":
+    if t[0] in ("call", "bcall"):
         return line if t[4] != "prop" else None
     return line
 
@@ -327,6 +328,24 @@ def cases(run):
                     d["argument_tuples"].add(f"{m} {argid}")
                     run.count(f"call:{cn}")
                     yield line
+    # (B') the same members on the boundary objects (every property / argument-less member of every object; the
+    # argument tuples of member j on object i when (i + j) % stride == 0 - everything in the thorough tier) --------
+    n_bcall, n_bobj = 0, 0
+    stride = BOUNDARY_STRIDE if run.tier == "quick" else 1
+    for cn, table in V.BOUNDARY.items():
+        d = dims["call"].setdefault("boundary:" + cn, {"bases": 0, "members": set(), "argument_tuples": set(), "points": 0})
+        for i, (name, (_fn, res)) in enumerate(table.items()):
+            d["bases"] += 1
+            n_bobj += 1
+            for m, argid in V.boundary_points(cn, name, i, stride):
+                line = f"bcall {cn} {name}.0 {m} {argid} {res}"
+                if emit(line):
+                    n_bcall += 1
+                    d["points"] += 1
+                    d["members"].add(m)
+                    d["argument_tuples"].add(f"{m} {argid}")
+                    run.count(f"bcall:{cn}")
+                    yield line
     # operand-pair grids ---------------------------------------------------------------------------
     n_pair = 0
     for line in _pair_grids(run):
@@ -361,7 +380,8 @@ def cases(run):
                              for cn, d in dims["ctor"].items()},
         "method_grid": {cn: {"bases": d["bases"], "members": len(d["members"]), "member_x_argument_tuples": len(d["argument_tuples"]),
                              "points": d["points"]} for cn, d in dims["call"].items()},
-        "totals": {"constructor_points": n_ctor, "method_points": n_call, "operand_pair_points": n_pair,
+        "totals": {"constructor_points": n_ctor, "method_points": n_call, "boundary_objects": n_bobj,
+                   "boundary_method_points": n_bcall, "operand_pair_points": n_pair,
                    "parser_points": n_parse, "parent_hierarchy_points": n_hier,
                    "plain_data_constructor_lines": n_small},
     }
